@@ -35,6 +35,7 @@ def run(ctx):
     c16_2b(ctx)
     c16_4b(ctx)
     c16_1b(ctx)
+    c16_sk(ctx)
 
 
 def c16_1(ctx):
@@ -349,3 +350,24 @@ def c16_1b(ctx):
             if d in ("blst_p1_add_or_double_affine", "blst_p2_add_or_double_affine"):
                 bad.append("%s calls %s" % (p, d))
     ctx.ob("C16.4", "no-mixed-addition", not bad, "point addition never uses the mixed (affine second operand) formula on projective points", found=bad or None)
+
+
+def c16_sk(ctx):
+    """secret keys have one encoding: SecretKey::from_bytes accepts the all-zero key, and otherwise exactly the scalars
+    blst_sk_check accepts (0 < sk < r); there is no hand-written range comparison whose boundary could admit r itself (a second
+    encoding of zero)."""
+    from .. import apnf
+    R = "C16.1"
+    b = U.body(ctx, R, BL + "secret_key::SecretKey::from_bytes")
+    if not b:
+        return
+    rows = set()
+    for ev, ex in P.enumerate_paths(b):
+        cs = frozenset((str(apnf.N(t)).split(",")[0].strip("('"), l[1]) for t, l in P.conds(ev))
+        rows.add((ex[0], P.ret_class(ev) if ex[0] == "return" else "", cs))
+    exp = {("return", "Ok", frozenset({("is_all_zero", True)})),
+           ("return", "Ok", frozenset({("is_all_zero", False), ("blst_sk_check", True)})),
+           ("return", "Err", frozenset({("is_all_zero", False), ("blst_sk_check", False)}))}
+    z = [str(apnf.N(b.operand_term(t["args"][0]))) for bi, n, t in b.calls() if U.flat(n).endswith("is_all_zero")]
+    ctx.ob(R, "secret-key:range", rows == exp and z == ["('as &[u8]', 'bytes')"],
+           "SecretKey::from_bytes = zero key, or whatever blst_sk_check admits; nothing else", found=sorted(map(str, rows ^ exp))[:3] or None, where=b.fn.sp)
